@@ -1,47 +1,693 @@
-//! C13 (expression layer) -- probe version
+//! C13, expression layer: ArcExpression::eval / EvalResult / SparqlValue / SparqlNumber /
+//! call_function of sophia_sparql, driven through the real engine
+//!   SELECT ?r { <tag:s> <tag:pa> ?a . <tag:s> <tag:pb> ?b . <tag:s> <tag:pc> ?c  BIND(<expr> AS ?r) }
+//!   ASK       { ... FILTER(<expr>) }
+//! against (a) the Coq implementation model coq/C13/ExprImpl.v instantiated with ExprConcrete.v
+//! (the case files evaluate `expr_ok XC the_cfg <expr> <mu> <bound term> <kept>`), and
+//! (b) an independent oracle: SPARQL 1.1 section 17 written directly in Rust below (own lexical
+//! mappings, own numeric tower over i128 / native IEEE floats, own dateTime reader).
+//! Oracle disagreements are reported with a class prefix obtained by re-running the oracle with
+//! each combination of the known deviations switched on.
+//! `--probe` reads expressions from stdin and prints what the engine binds (replay of witnesses).
 use sophia_api::prelude::*;
 use sophia_api::sparql::{Query, SparqlDataset, SparqlResult};
+use sophia_api::term::TermKind;
 use sophia_inmem::dataset::LightDataset;
 use sophia_sparql::*;
+use std::collections::{BTreeMap, HashSet};
 use verif_harness::*;
 
-fn run(q: &str) -> String {
-    let d = LightDataset::new();
-    let parsed = match SparqlQuery::<LightDataset>::parse(q) { Ok(p) => p, Err(e) => return format!("PARSE {e}") };
-    if std::env::var("DEBUGQ").is_ok() { println!("{parsed:?}"); }
-    let r = std::panic::catch_unwind(std::panic::AssertUnwindSafe(|| {
-        match SparqlWrapper(&d).query(&parsed) {
-            Err(e) => format!("ERR {e}"),
-            Ok(SparqlResult::Boolean(b)) => format!("BOOL {b}"),
-            Ok(SparqlResult::Bindings(b)) => {
-                let mut o = String::new();
-                for row in b {
-                    match row { Ok(r) => { for t in r.iter() { match t { Some(t) => o.push_str(&format!("{} ", show(t.borrow_term()))), None => o.push_str("UNBOUND ") } } o.push('|'); }, Err(e) => return format!("ROWERR {e}") }
-                }
-                o
-            }
-            Ok(_) => "OTHER".into(),
+// ------------------------------------------------------------------------------------------
+// terms
+// ------------------------------------------------------------------------------------------
+#[derive(Clone, PartialEq, Eq, PartialOrd, Ord, Debug, Hash)]
+enum T { Iri(String), Bn(String), Lit(String, String), Lang(String, String), Tr(Box<[T; 3]>) }
+const RDF_LANGSTRING: &str = "http://www.w3.org/1999/02/22-rdf-syntax-ns#langString";
+fn x(local: &str) -> String { format!("{XSD}{local}") }
+fn lit(lex: &str, local: &str) -> T { T::Lit(lex.into(), x(local)) }
+impl T {
+    fn to_st(&self) -> ST {
+        match self {
+            T::Iri(s) => iri(s), T::Bn(s) => bnode(s), T::Lit(l, d) => lit_dt(l, d), T::Lang(l, t) => lit_lang(l, t),
+            T::Tr(b) => triple(b[0].to_st(), b[1].to_st(), b[2].to_st()),
         }
-    }));
-    match r { Ok(s) => s, Err(_) => "PANIC".into() }
+    }
+    fn from_term<X: Term>(t: X) -> T {
+        match t.kind() {
+            TermKind::Iri => T::Iri(t.iri().unwrap().as_str().to_string()),
+            TermKind::BlankNode => T::Bn(t.bnode_id().unwrap().as_str().to_string()),
+            TermKind::Literal => match t.language_tag() {
+                Some(tag) => T::Lang(t.lexical_form().unwrap().to_string(), tag.as_str().to_string()),
+                None => T::Lit(t.lexical_form().unwrap().to_string(), t.datatype().unwrap().as_str().to_string()),
+            },
+            TermKind::Triple => { let [s, p, o] = t.triple().unwrap(); T::Tr(Box::new([T::from_term(s), T::from_term(p), T::from_term(o)])) }
+            TermKind::Variable => T::Iri(format!("?var:{}", t.variable().unwrap().as_str())),
+        }
+    }
+    fn coq(&self) -> String {
+        match self {
+            T::Iri(s) => format!("(Iri {})", coq_str(s)), T::Bn(s) => format!("(Bnode {})", coq_str(s)),
+            T::Lit(l, d) => format!("(LitDt {} {})", coq_str(l), coq_str(d)), T::Lang(l, t) => format!("(LitLang {} {})", coq_str(l), coq_str(t)),
+            T::Tr(b) => format!("(Triple {} {} {})", b[0].coq(), b[1].coq(), b[2].coq()),
+        }
+    }
+    fn sparql(&self) -> String {
+        match self {
+            T::Iri(s) => format!("<{s}>"), T::Bn(s) => format!("_:{s}"), T::Lit(l, d) => format!("{l:?}^^<{d}>"), T::Lang(l, t) => format!("{l:?}@{t}"),
+            T::Tr(b) => format!("<< {} {} {} >>", b[0].sparql(), b[1].sparql(), b[2].sparql()),
+        }
+    }
+    fn show(&self) -> String { self.sparql().replace(XSD, "xsd:") }
+    fn is_lit(&self) -> bool { matches!(self, T::Lit(..) | T::Lang(..)) }
+    /// Term::eq: language tags compare without case
+    fn same(&self, o: &T) -> bool {
+        match (self, o) {
+            (T::Lang(a, s), T::Lang(b, t)) => a == b && s.eq_ignore_ascii_case(t),
+            (T::Tr(a), T::Tr(b)) => (0..3).all(|i| a[i].same(&b[i])),
+            _ => self == o,
+        }
+    }
 }
 
-fn show<T: Term>(t: T) -> String {
-    use sophia_api::term::TermKind::*;
-    match t.kind() {
-        Iri => format!("<{}>", t.iri().unwrap().as_str()),
-        BlankNode => format!("_:{}", t.bnode_id().unwrap().as_str()),
-        Variable => format!("?{}", t.variable().unwrap().as_str()),
-        Literal => match t.language_tag() { Some(tag) => format!("{:?}@{}", t.lexical_form().unwrap(), tag.as_str()), None => format!("{:?}^^{}", t.lexical_form().unwrap(), t.datatype().unwrap().as_str().replace(XSD, "xsd:")) },
-        Triple => { let [s, p, o] = t.triple().unwrap(); format!("<<{} {} {}>>", show(s), show(p), show(o)) }
+// ------------------------------------------------------------------------------------------
+// expressions
+// ------------------------------------------------------------------------------------------
+#[derive(Clone, Copy, Debug, PartialEq, Eq)]
+enum F1 { Str, Lang, Datatype, IsIri, IsBlank, IsLiteral, IsNumeric }
+#[derive(Clone, Copy, Debug, PartialEq, Eq)]
+enum B2 { Or, And, Eq, SameTerm, Gt, Ge, Lt, Le, Add, Sub, Mul, Div }
+#[derive(Clone, Debug)]
+enum E { Const(usize), Var(usize), Bound(usize), Not(Box<E>), Bin(B2, Box<E>, Box<E>), In(Box<E>, Vec<E>), Plus(Box<E>), Minus(Box<E>), If(Box<E>, Box<E>, Box<E>), Coalesce(Vec<E>), Fn(F1, Box<E>) }
+const VARS: [&str; 4] = ["a", "b", "c", "u"]; // ?u is never bound
+fn bx(e: E) -> Box<E> { Box::new(e) }
+fn bin(o: B2, a: E, b: E) -> E { E::Bin(o, bx(a), bx(b)) }
+impl E {
+    /// SPARQL text, fully parenthesised (spargebra 0.3.5 parses `2-3-4` as `2-(3-4)`)
+    fn sparql(&self, pool: &[T], r: &mut Rng) -> String {
+        match self {
+            E::Const(i) => pool[*i].sparql(),
+            E::Var(v) => format!("?{}", VARS[*v]),
+            E::Bound(v) => format!("BOUND(?{})", VARS[*v]),
+            E::Not(a) => match &**a {
+                E::Bin(B2::Eq, p, q) if r.chance(1, 2) => format!("({} != {})", p.sparql(pool, r), q.sparql(pool, r)),
+                E::In(p, l) if r.chance(1, 2) => format!("({} NOT IN ({}))", p.sparql(pool, r), l.iter().map(|e| e.sparql(pool, r)).collect::<Vec<_>>().join(", ")),
+                _ => format!("(!({}))", a.sparql(pool, r)),
+            },
+            E::Bin(o, a, b) => {
+                let (a, b) = (a.sparql(pool, r), b.sparql(pool, r));
+                match o { B2::SameTerm => format!("sameTerm({a}, {b})"),
+                    _ => format!("({a} {} {b})", match o { B2::Or => "||", B2::And => "&&", B2::Eq => "=", B2::Gt => ">", B2::Ge => ">=", B2::Lt => "<", B2::Le => "<=", B2::Add => "+", B2::Sub => "-", B2::Mul => "*", B2::Div => "/", B2::SameTerm => unreachable!() }) }
+            }
+            E::In(a, l) => format!("({} IN ({}))", a.sparql(pool, r), l.iter().map(|e| e.sparql(pool, r)).collect::<Vec<_>>().join(", ")),
+            E::Plus(a) => format!("(+({}))", a.sparql(pool, r)),
+            E::Minus(a) => format!("(-({}))", a.sparql(pool, r)),
+            E::If(c, t, e) => format!("IF({}, {}, {})", c.sparql(pool, r), t.sparql(pool, r), e.sparql(pool, r)),
+            E::Coalesce(l) => format!("COALESCE({})", l.iter().map(|e| e.sparql(pool, r)).collect::<Vec<_>>().join(", ")),
+            E::Fn(f, a) => format!("{}({})", match f { F1::Str => "STR", F1::Lang => "LANG", F1::Datatype => "DATATYPE", F1::IsIri => "isIRI", F1::IsBlank => "isBLANK", F1::IsLiteral => "isLITERAL", F1::IsNumeric => "isNUMERIC" }, a.sparql(pool, r)),
+        }
+    }
+    fn coq(&self) -> String {
+        let l = |v: &Vec<E>| coq_list(v.iter().map(|e| e.coq()));
+        match self {
+            E::Const(i) => format!("(EConst t{i})"),
+            E::Var(v) => format!("(EVar {})", coq_str(VARS[*v])),
+            E::Bound(v) => format!("(EBound {})", coq_str(VARS[*v])),
+            E::Not(a) => format!("(ENot {})", a.coq()),
+            E::Bin(o, a, b) => format!("({} {} {})", match o { B2::Or => "EOr", B2::And => "EAnd", B2::Eq => "EEq", B2::SameTerm => "ESameTerm", B2::Gt => "EGt", B2::Ge => "EGe", B2::Lt => "ELt", B2::Le => "ELe", B2::Add => "EAdd", B2::Sub => "ESub", B2::Mul => "EMul", B2::Div => "EDiv" }, a.coq(), b.coq()),
+            E::In(a, v) => format!("(EIn {} {})", a.coq(), l(v)),
+            E::Plus(a) => format!("(EPlus {})", a.coq()),
+            E::Minus(a) => format!("(EMinus {})", a.coq()),
+            E::If(c, t, e) => format!("(EIf {} {} {})", c.coq(), t.coq(), e.coq()),
+            E::Coalesce(v) => format!("(ECoalesce {})", l(v)),
+            E::Fn(f, a) => format!("(EFn {} {})", match f { F1::Str => "FStr", F1::Lang => "FLang", F1::Datatype => "FDatatype", F1::IsIri => "FIsIri", F1::IsBlank => "FIsBlank", F1::IsLiteral => "FIsLiteral", F1::IsNumeric => "FIsNumeric" }, a.coq()),
+        }
+    }
+    fn size(&self) -> usize {
+        match self { E::Const(_) | E::Var(_) | E::Bound(_) => 1, E::Not(a) | E::Plus(a) | E::Minus(a) | E::Fn(_, a) => 1 + a.size(), E::Bin(_, a, b) => 1 + a.size() + b.size(),
+            E::In(a, l) => 1 + a.size() + l.iter().map(|e| e.size()).sum::<usize>(), E::If(c, t, e) => 1 + c.size() + t.size() + e.size(), E::Coalesce(l) => 1 + l.iter().map(|e| e.size()).sum::<usize>() }
     }
 }
-fn main() {
-    use std::io::BufRead;
-    for l in std::io::stdin().lock().lines() {
-        let l = l.unwrap();
-        if l.trim().is_empty() { continue }
-        let q = format!("PREFIX xsd: <http://www.w3.org/2001/XMLSchema#> SELECT ?r {{ BIND(({l}) AS ?r) }}");
-        println!("{l}  ==>  {}", run(&q));
+
+// ------------------------------------------------------------------------------------------
+// the oracle: SPARQL 1.1 section 17
+// ------------------------------------------------------------------------------------------
+/// known deviations of the implementation; the SPECIFICATION is `Dv::default()`
+#[derive(Clone, Copy, Default, Debug, PartialEq)]
+struct Dv { if_noebv: bool, eq_ill: bool, nan_truthy: bool, ebv_illnum: bool, nan_cmp: bool, lex: bool, dec_sci: bool, inf_lex: bool, in_first: bool, unsigned_m0: bool }
+const DV_NAMES: [&str; 10] = ["IF-NOEBV", "EQ-ILLFORMED", "FLOAT-NAN-EBV", "EBV-ILLFORMED-NUMERIC", "NAN-COMPARE", "LEXICAL-SPACE", "DECIMAL-SCI-OUTPUT", "INF-OUTPUT", "IN-FIRST-ERROR", "UNSIGNED-MINUS-ZERO"];
+fn dv_of(mask: u32) -> Dv { let b = |i: u32| mask & (1 << i) != 0; Dv { if_noebv: b(0), eq_ill: b(1), nan_truthy: b(2), ebv_illnum: b(3), nan_cmp: b(4), lex: b(5), dec_sci: b(6), inf_lex: b(7), in_first: b(8), unsigned_m0: b(9) } }
+
+#[derive(Clone, Copy, Debug, PartialEq)]
+enum Num { I(i128), D(i128, u32), F(f32), Db(f64) }
+#[derive(Clone, Debug, PartialEq)]
+enum R { T(T), N(Num), B(bool), StrOfNum(Num) }
+#[derive(Clone, Copy, Debug, PartialEq)]
+enum Er { Type, Unknown } // a SPARQL error / the oracle cannot tell (i128 overflow, open lexical form, inexact decimal division)
+type Res = Result<R, Er>;
+type Dt = (i128, Option<i64>);
+#[derive(Clone, Debug, PartialEq)]
+enum K { Num(Num), BadNum, HugeNum, Str(String), Lang(String, String), Bool(bool), BadBool, DT(Dt), BadDT, OtherLit, Iri, Blank, Other }
+
+fn dnorm(mut m: i128, mut s: u32) -> Num { if m == 0 { return Num::D(0, 0) } while s > 0 && m % 10 == 0 { m /= 10; s -= 1 } Num::D(m, s) }
+fn all_digits(s: &str) -> bool { s.bytes().all(|b| b.is_ascii_digit()) }
+fn unsign(s: &str) -> (bool, &str) { if let Some(r) = s.strip_prefix('-') { (true, r) } else if let Some(r) = s.strip_prefix('+') { (false, r) } else { (false, s) } }
+/// what num_bigint's BigInt::from_str accepts (only used to CLASSIFY a deviation): underscores after the first digit
+fn bigint_lenient(s: &str) -> Option<Option<i128>> {
+    let (neg, body) = if let Some(t) = s.strip_prefix('-') { if t.starts_with('+') { return None } (true, t) } else if let Some(t) = s.strip_prefix('+') { if t.starts_with('+') { return None } (false, t) } else { (false, s) };
+    if body.is_empty() || body.starts_with('_') || !body.bytes().all(|b| b.is_ascii_digit() || b == b'_') { return None }
+    Some(body.replace('_', "").parse::<i128>().ok().map(|v| if neg { -v } else { v }))
+}
+/// XSD integer: Some(None) = in the lexical space but too big for the oracle
+fn xsd_integer(lex: &str, dv: &Dv) -> Option<Option<i128>> {
+    if dv.lex { return bigint_lenient(lex) }
+    let (neg, d) = unsign(lex);
+    if d.is_empty() || !all_digits(d) { return None }
+    Some(d.parse::<i128>().ok().map(|v| if neg { -v } else { v }))
+}
+fn mk_dec(m: i128, sc: i64) -> Option<Num> {
+    if sc >= 0 { if sc > 60 { return None } Some(dnorm(m, sc as u32)) }
+    else { if -sc > 30 { return None } 10i128.checked_pow((-sc) as u32).and_then(|p| m.checked_mul(p)).map(|v| Num::D(v, 0)) }
+}
+fn xsd_decimal(lex: &str, dv: &Dv) -> Option<Option<Num>> {
+    if dv.lex { // what bigdecimal's BigDecimal::from_str accepts (only used to CLASSIFY a deviation)
+        let (base, ex) = match lex.find(['e', 'E']) { Some(p) => { let e = &lex[p + 1..]; let d = unsign(e).1; if d.is_empty() || !all_digits(d) { return None } (&lex[..p], e.parse::<i64>().ok()?) } None => (lex, 0) };
+        if base.is_empty() { return None }
+        let (digits, off) = match base.find('.') { None => (base.to_string(), 0), Some(p) if p == base.len() - 1 => (base[..p].to_string(), 0),
+            Some(p) => (format!("{}{}", &base[..p], &base[p + 1..]), base[p + 1..].chars().filter(|c| *c != '_').count() as i64) };
+        return match bigint_lenient(&digits)? { None => Some(None), Some(m) => Some(mk_dec(m, off - ex)) };
     }
+    let (neg, d) = unsign(lex);
+    let (i, f) = match d.split_once('.') { Some((i, f)) => (i, f), None => (d, "") };
+    if (i.is_empty() && f.is_empty()) || !all_digits(i) || !all_digits(f) { return None }
+    let Ok(m) = format!("{i}{f}").parse::<i128>() else { return Some(None) };
+    Some(mk_dec(if neg { -m } else { m }, f.len() as i64))
+}
+fn xsd_float_syntax(lex: &str, dv: &Dv) -> bool {
+    if matches!(lex, "INF" | "+INF" | "-INF" | "NaN") { return true }
+    if dv.lex { let l = unsign(lex).1.to_ascii_lowercase(); if l == "inf" || l == "infinity" || l == "nan" { return true } }
+    let (_, d) = unsign(lex);
+    let (m, e) = match d.find(['e', 'E']) { Some(p) => (&d[..p], Some(&d[p + 1..])), None => (d, None) };
+    let (i, f) = match m.split_once('.') { Some((i, f)) => (i, f), None => (m, "") };
+    if (i.is_empty() && f.is_empty()) || !all_digits(i) || !all_digits(f) { return false }
+    match e { None => true, Some(e) => { let e = unsign(e).1; !e.is_empty() && all_digits(e) } }
+}
+fn days_from_civil(y: i128, m: i128, d: i128) -> i128 {
+    let y = if m <= 2 { y - 1 } else { y };
+    let era = y.div_euclid(400); let yoe = y - era * 400;
+    let mp = (m + 9) % 12; let doy = (153 * mp + 2) / 5 + d - 1;
+    era * 146097 + yoe * 365 + yoe / 4 - yoe / 100 + doy
+}
+fn xsd_datetime(lex: &str) -> Option<Dt> {
+    if !lex.is_ascii() { return None }
+    let b = lex.as_bytes();
+    let (neg, mut i) = if b.first() == Some(&b'-') { (true, 1) } else { (false, 0) };
+    let st = i; while i < b.len() && b[i].is_ascii_digit() { i += 1 }
+    if i - st < 4 || i - st > 6 { return None }
+    let y: i128 = lex[st..i].parse().ok()?; let y = if neg { -y } else { y };
+    let two = |i: usize| -> Option<i128> { if i + 2 <= b.len() && b[i].is_ascii_digit() && b[i + 1].is_ascii_digit() { lex[i..i + 2].parse().ok() } else { None } };
+    let lit = |i: usize, c: u8| -> Option<()> { if b.get(i) == Some(&c) { Some(()) } else { None } };
+    lit(i, b'-')?; let mo = two(i + 1)?; lit(i + 3, b'-')?; let d = two(i + 4)?; lit(i + 6, b'T')?; let h = two(i + 7)?; lit(i + 9, b':')?; let mi = two(i + 10)?; lit(i + 12, b':')?; let se = two(i + 13)?;
+    i += 15;
+    let mut nano: i128 = 0;
+    if b.get(i) == Some(&b'.') { let st = i + 1; i = st; while i < b.len() && b[i].is_ascii_digit() { i += 1 } if i == st || i - st > 9 { return None } nano = lex[st..i].parse::<i128>().ok()? * 10i128.pow(9 - (i - st) as u32); }
+    let tz = match &lex[i..] { "" => None, "Z" => Some(0), z => { let zb = z.as_bytes(); if zb.len() != 6 || zb[3] != b':' || !(zb[0] == b'+' || zb[0] == b'-') { return None }
+        if !all_digits(&z[1..3]) || !all_digits(&z[4..6]) { return None }
+        let hh: i64 = z[1..3].parse().ok()?; let mm: i64 = z[4..6].parse().ok()?; if hh > 14 || mm > 59 || (hh == 14 && mm > 0) { return None } Some((if zb[0] == b'-' { -1 } else { 1 }) * (hh * 3600 + mm * 60)) } };
+    let leap = (y % 4 == 0 && y % 100 != 0) || y % 400 == 0;
+    let dim = match mo { 2 => if leap { 29 } else { 28 }, 4 | 6 | 9 | 11 => 30, 1..=12 => 31, _ => return None };
+    if d < 1 || d > dim { return None }
+    let day = days_from_civil(y, mo, d);
+    let secs = if h < 24 && mi < 60 && se < 60 { day * 86400 + h * 3600 + mi * 60 + se } else if h == 24 && mi == 0 && se == 0 && nano == 0 { (day + 1) * 86400 } else { return None };
+    let local = secs * 1_000_000_000 + nano;
+    Some(match tz { None => (local, None), Some(off) => (local - off as i128 * 1_000_000_000, Some(off)) })
+}
+/// XSD 3.2.7.4 (no implicit timezone): None = indeterminate
+fn dt_cmp(a: &Dt, b: &Dt) -> Option<std::cmp::Ordering> {
+    use std::cmp::Ordering::*;
+    const H14: i128 = 14 * 3600 * 1_000_000_000;
+    match (a.1.is_some(), b.1.is_some()) {
+        (true, true) | (false, false) => Some(a.0.cmp(&b.0)),
+        (true, false) => if a.0 < b.0 - H14 { Some(Less) } else if a.0 > b.0 + H14 { Some(Greater) } else { None },
+        (false, true) => if b.0 < a.0 - H14 { Some(Greater) } else if b.0 > a.0 + H14 { Some(Less) } else { None },
+    }
+}
+fn int_range(local: &str) -> Option<(Option<i128>, Option<i128>)> {
+    Some(match local {
+        "nonPositiveInteger" => (None, Some(0)), "negativeInteger" => (None, Some(-1)), "long" => (Some(i64::MIN as i128), Some(i64::MAX as i128)), "int" => (Some(i32::MIN as i128), Some(i32::MAX as i128)),
+        "short" => (Some(-32768), Some(32767)), "byte" => (Some(-128), Some(127)), "nonNegativeInteger" => (Some(0), None), "unsignedLong" => (Some(0), Some(u64::MAX as i128)),
+        "unsignedInt" => (Some(0), Some(u32::MAX as i128)), "unsignedShort" => (Some(0), Some(65535)), "unsignedByte" => (Some(0), Some(255)), "positiveInteger" => (Some(1), None), _ => return None,
+    })
+}
+fn classify(t: &T, dv: &Dv) -> K {
+    match t {
+        T::Iri(_) => K::Iri, T::Bn(_) => K::Blank, T::Tr(_) => K::Other, T::Lang(l, tag) => K::Lang(l.clone(), tag.clone()),
+        T::Lit(lex, dt) => {
+            let Some(local) = dt.strip_prefix(XSD) else { return K::OtherLit };
+            let of = |o: Option<Option<Num>>| match o { None => K::BadNum, Some(None) => K::HugeNum, Some(Some(n)) => K::Num(n) };
+            match local {
+                "integer" => of(xsd_integer(lex, dv).map(|o| o.map(Num::I))),
+                "decimal" => of(xsd_decimal(lex, dv)),
+                "float" => if xsd_float_syntax(lex, dv) { lex.parse::<f32>().map(|f| K::Num(Num::F(f))).unwrap_or(K::BadNum) } else { K::BadNum },
+                "double" => if xsd_float_syntax(lex, dv) { lex.parse::<f64>().map(|f| K::Num(Num::Db(f))).unwrap_or(K::BadNum) } else { K::BadNum },
+                "string" => K::Str(lex.clone()),
+                "boolean" => match lex.as_str() { "true" | "1" => K::Bool(true), "false" | "0" => K::Bool(false), _ => K::BadBool },
+                "dateTime" => xsd_datetime(lex).map(K::DT).unwrap_or(K::BadDT),
+                _ => match int_range(local) {
+                    None => K::OtherLit,
+                    Some((lo, hi)) => {
+                        // only the unbounded types go through BigInt's lenient parser
+                        let d = Dv { lex: dv.lex && (lo.is_none() || hi.is_none()), ..*dv };
+                        if dv.unsigned_m0 && local.starts_with("unsigned") && lex.starts_with('-') { return K::BadNum }
+                        match xsd_integer(lex, &d) { None => K::BadNum, Some(None) => if hi.is_some() && lo.is_some() { K::BadNum } else { K::HugeNum },
+                            Some(Some(v)) => if lo.is_none_or(|l| l <= v) && hi.is_none_or(|h| v <= h) { K::Num(Num::I(v)) } else { K::BadNum } }
+                    }
+                },
+            }
+        }
+    }
+}
+fn rank(n: &Num) -> u8 { match n { Num::I(_) => 0, Num::D(..) => 1, Num::F(_) => 2, Num::Db(_) => 3 } }
+fn to_dec(n: &Num) -> (i128, u32) { match n { Num::I(v) => (*v, 0), Num::D(m, s) => (*m, *s), _ => unreachable!() } }
+fn dec_str(m: i128, s: u32) -> String { format!("{m}e-{s}") }
+fn to_f32(n: &Num) -> f32 { match n { Num::I(v) => *v as f32, Num::D(m, s) => dec_str(*m, *s).parse().unwrap(), Num::F(f) => *f, Num::Db(d) => *d as f32 } }
+fn to_f64(n: &Num) -> f64 { match n { Num::I(v) => *v as f64, Num::D(m, s) => dec_str(*m, *s).parse().unwrap(), Num::F(f) => *f as f64, Num::Db(d) => *d } }
+fn align(a: (i128, u32), b: (i128, u32)) -> Option<(i128, i128, u32)> {
+    let s = a.1.max(b.1);
+    Some((a.0.checked_mul(10i128.checked_pow(s - a.1)?)?, b.0.checked_mul(10i128.checked_pow(s - b.1)?)?, s))
+}
+fn arith(op: B2, a: &Num, b: &Num) -> Result<Num, Er> {
+    let u = Er::Unknown;
+    match rank(a).max(rank(b)) {
+        0 => { let (Num::I(x), Num::I(y)) = (a, b) else { unreachable!() };
+            match op { B2::Add => x.checked_add(*y).map(Num::I).ok_or(u), B2::Sub => x.checked_sub(*y).map(Num::I).ok_or(u), B2::Mul => x.checked_mul(*y).map(Num::I).ok_or(u),
+                _ => if *y == 0 { Err(Er::Type) } else { dec_div((*x, 0), (*y, 0)) } } }
+        1 => { let (x, y) = (to_dec(a), to_dec(b));
+            match op { B2::Add => { let (p, q, s) = align(x, y).ok_or(u)?; p.checked_add(q).map(|m| dnorm(m, s)).ok_or(u) }
+                B2::Sub => { let (p, q, s) = align(x, y).ok_or(u)?; p.checked_sub(q).map(|m| dnorm(m, s)).ok_or(u) }
+                B2::Mul => x.0.checked_mul(y.0).map(|m| dnorm(m, x.1 + y.1)).ok_or(u),
+                _ => if y.0 == 0 { Err(Er::Type) } else { dec_div(x, y) } } }
+        2 => { let (x, y) = (to_f32(a), to_f32(b)); Ok(Num::F(match op { B2::Add => x + y, B2::Sub => x - y, B2::Mul => x * y, _ => x / y })) }
+        _ => { let (x, y) = (to_f64(a), to_f64(b)); Ok(Num::Db(match op { B2::Add => x + y, B2::Sub => x - y, B2::Mul => x * y, _ => x / y })) }
+    }
+}
+/// exact quotient when it terminates within a few dozen fractional digits, else the oracle cannot tell
+fn dec_div(x: (i128, u32), y: (i128, u32)) -> Result<Num, Er> {
+    let (mut n, d) = (x.0, y.0); let mut s = x.1 as i64 - y.1 as i64;
+    for _ in 0..40 { if s >= 0 && n % d == 0 { return Ok(dnorm(n / d, s as u32)) } n = n.checked_mul(10).ok_or(Er::Unknown)?; s += 1; }
+    Err(Er::Unknown)
+}
+fn num_cmp(a: &Num, b: &Num) -> Result<Option<std::cmp::Ordering>, Er> {
+    Ok(match rank(a).max(rank(b)) {
+        0 | 1 => { let (p, q, _) = align(to_dec(a), to_dec(b)).ok_or(Er::Unknown)?; Some(p.cmp(&q)) }
+        2 => to_f32(a).partial_cmp(&to_f32(b)),
+        _ => to_f64(a).partial_cmp(&to_f64(b)),
+    })
+}
+fn num_dt(n: &Num) -> String { x(match n { Num::I(_) => "integer", Num::D(..) => "decimal", Num::F(_) => "float", Num::Db(_) => "double" }) }
+fn class_of(r: &R, dv: &Dv) -> K { match r { R::T(t) => classify(t, dv), R::N(n) => K::Num(*n), R::B(b) => K::Bool(*b), R::StrOfNum(_) => K::Str("?".into()) } }
+fn ebv(r: &R, dv: &Dv) -> Result<bool, Er> {
+    if let R::StrOfNum(_) = r { return Ok(true) } // every lexical form of a number is non-empty
+    match class_of(r, dv) {
+        K::Bool(b) => Ok(b), K::BadBool => Ok(false), K::BadNum => if dv.ebv_illnum { Err(Er::Type) } else { Ok(false) },
+        K::Str(s) | K::Lang(s, _) => Ok(!s.is_empty()),
+        K::Num(n) => Ok(match n { Num::I(v) => v != 0, Num::D(m, _) => m != 0, Num::F(f) => f != 0.0 && (dv.nan_truthy || !f.is_nan()), Num::Db(d) => d != 0.0 && !d.is_nan() }),
+        K::HugeNum => Ok(true),
+        _ => Err(Er::Type),
+    }
+}
+/// the RDF term of a result, when it does not depend on an open lexical form
+fn term_of(r: &R) -> Option<T> { match r { R::T(t) => Some(t.clone()), R::B(b) => Some(lit(if *b { "true" } else { "false" }, "boolean")), _ => None } }
+fn rdfterm_equal(a: &R, b: &R, dv: &Dv) -> Result<bool, Er> {
+    match (term_of(a), term_of(b)) {
+        (Some(s), Some(o)) => if s.same(&o) { Ok(true) } else if s.is_lit() && o.is_lit() { Err(Er::Type) } else { Ok(false) },
+        // a computed number (valid lexical form, numeric datatype) against something that is not a numeric value
+        (s, o) => match s.or(o) { None => Err(Er::Unknown), Some(t) => match classify(&t, dv) {
+            K::Iri | K::Blank | K::Other => Ok(false),
+            K::HugeNum => Err(Er::Unknown),
+            _ => Err(Er::Type) } }, // incl. ill-formed numbers: a computed number always has a valid lexical form
+    }
+}
+fn eq(a: &R, b: &R, dv: &Dv) -> Result<bool, Er> {
+    if matches!(a, R::StrOfNum(_)) || matches!(b, R::StrOfNum(_)) { return Err(Er::Unknown) }
+    match (class_of(a, dv), class_of(b, dv)) {
+        (K::Num(x), K::Num(y)) => Ok(num_cmp(&x, &y)? == Some(std::cmp::Ordering::Equal)),
+        (K::HugeNum, K::Num(_) | K::HugeNum) | (K::Num(_), K::HugeNum) => Err(Er::Unknown),
+        (K::Str(s1), K::Str(s2)) => Ok(s1 == s2),
+        (K::Bool(x), K::Bool(y)) => Ok(x == y),
+        (K::DT(x), K::DT(y)) => match dt_cmp(&x, &y) { Some(o) => Ok(o.is_eq()), None => rdfterm_equal(a, b, dv) },
+        (K::Lang(s1, t1), K::Lang(s2, t2)) => Ok(s1 == s2 && t1.eq_ignore_ascii_case(&t2)), // 17.3.1 extension: values known to differ
+        (K::BadBool, K::BadBool) if dv.eq_ill => Ok(true),
+        (K::BadBool, K::Bool(_)) | (K::Bool(_), K::BadBool) if dv.eq_ill => Ok(false),
+        (K::BadDT, K::BadDT) if dv.eq_ill => Ok(true),
+        (K::BadDT, K::DT(_)) | (K::DT(_), K::BadDT) if dv.eq_ill => Ok(false),
+        _ => rdfterm_equal(a, b, dv),
+    }
+}
+fn rel(op: B2, a: &R, b: &R, dv: &Dv) -> Result<bool, Er> {
+    use std::cmp::Ordering::*;
+    if matches!(a, R::StrOfNum(_)) || matches!(b, R::StrOfNum(_)) { return Err(Er::Unknown) }
+    let pred = |o: std::cmp::Ordering| match op { B2::Gt => o == Greater, B2::Ge => o != Less, B2::Lt => o == Less, _ => o != Greater };
+    match (class_of(a, dv), class_of(b, dv)) {
+        (K::Num(x), K::Num(y)) => match num_cmp(&x, &y)? { Some(o) => Ok(pred(o)), None => if dv.nan_cmp { Err(Er::Type) } else { Ok(false) } },
+        (K::HugeNum, K::Num(_) | K::HugeNum) | (K::Num(_), K::HugeNum) => Err(Er::Unknown),
+        (K::Str(s1), K::Str(s2)) => Ok(pred(s1.chars().cmp(s2.chars()))),
+        (K::Bool(x), K::Bool(y)) => Ok(pred(Ord::cmp(&x, &y))),
+        (K::DT(x), K::DT(y)) => dt_cmp(&x, &y).map(pred).ok_or(Er::Type),
+        // 17.3.1 extensions of sophia (a type error replaced by a value)
+        (K::Lang(s1, t1), K::Lang(s2, t2)) => Ok(pred(t1.to_ascii_lowercase().cmp(&t2.to_ascii_lowercase()).then(s1.chars().cmp(s2.chars())))),
+        (K::BadNum | K::OtherLit, K::BadNum | K::OtherLit) => match (term_of(a), term_of(b)) { (Some(s), Some(o)) if s.same(&o) => Ok(pred(Equal)), _ => Err(Er::Type) },
+        _ => Err(Er::Type),
+    }
+}
+fn or3(a: Result<bool, Er>, b: Result<bool, Er>) -> Result<bool, Er> {
+    match (a, b) { (Ok(x), Ok(y)) => Ok(x || y), (Ok(true), _) | (_, Ok(true)) => Ok(true), (Err(Er::Unknown), _) | (_, Err(Er::Unknown)) => Err(Er::Unknown), _ => Err(Er::Type) }
+}
+fn and3(a: Result<bool, Er>, b: Result<bool, Er>) -> Result<bool, Er> {
+    match (a, b) { (Ok(x), Ok(y)) => Ok(x && y), (Ok(false), _) | (_, Ok(false)) => Ok(false), (Err(Er::Unknown), _) | (_, Err(Er::Unknown)) => Err(Er::Unknown), _ => Err(Er::Type) }
+}
+fn num_of(r: &R, dv: &Dv) -> Result<Num, Er> { match class_of(r, dv) { K::Num(n) if !matches!(r, R::StrOfNum(_)) => Ok(n), K::HugeNum => Err(Er::Unknown), _ => Err(Er::Type) } }
+fn eval(e: &E, pool: &[T], mu: &[Option<usize>; 4], dv: &Dv) -> Res {
+    let ev = |e: &E| eval(e, pool, mu, dv);
+    match e {
+        E::Const(i) => Ok(R::T(pool[*i].clone())),
+        E::Var(v) => mu[*v].map(|i| R::T(pool[i].clone())).ok_or(Er::Type),
+        E::Bound(v) => Ok(R::B(mu[*v].is_some())),
+        E::Not(a) => Ok(R::B(!ebv(&ev(a)?, dv)?)),
+        E::Bin(B2::Or, a, b) => or3(ev(a).and_then(|r| ebv(&r, dv)), ev(b).and_then(|r| ebv(&r, dv))).map(R::B),
+        E::Bin(B2::And, a, b) => and3(ev(a).and_then(|r| ebv(&r, dv)), ev(b).and_then(|r| ebv(&r, dv))).map(R::B),
+        E::Bin(o, a, b) => {
+            // an error in either operand is an error; Unknown only matters if no operand is a definite error
+            let (a, b) = match (ev(a), ev(b)) { (Err(Er::Type), _) | (_, Err(Er::Type)) => return Err(Er::Type), (a, b) => (a?, b?) };
+            match o {
+                B2::Eq => eq(&a, &b, dv).map(R::B),
+                B2::SameTerm => match (term_of(&a), term_of(&b)) {
+                    (Some(s), Some(t)) => Ok(R::B(s.same(&t))),
+                    // a computed number or STR(number) against a term: decided only if the datatypes differ
+                    (s, t) => match s.or(t) { Some(T::Lit(_, d)) => { let other = if term_of(&a).is_none() { &a } else { &b }; let dt = match other { R::N(n) => num_dt(n), _ => x("string") }; if d != dt { Ok(R::B(false)) } else { Err(Er::Unknown) } } Some(_) => Ok(R::B(false)), None => Err(Er::Unknown) },
+                },
+                B2::Gt | B2::Ge | B2::Lt | B2::Le => rel(*o, &a, &b, dv).map(R::B),
+                _ => { let (x, y) = match (num_of(&a, dv), num_of(&b, dv)) { (Err(Er::Type), _) | (_, Err(Er::Type)) => return Err(Er::Type), (x, y) => (x?, y?) }; arith(*o, &x, &y).map(R::N) }
+            }
+        }
+        E::In(a, l) => {
+            let x = ev(a)?;
+            if dv.in_first {
+                for e in l { match ev(e).and_then(|o| eq(&x, &o, dv)) { Ok(false) => continue, Ok(true) => return Ok(R::B(true)), Err(e) => return Err(e) } }
+                Ok(R::B(false))
+            } else { l.iter().rev().fold(Ok(false), |acc, e| or3(ev(e).and_then(|o| eq(&x, &o, dv)), acc)).map(R::B) }
+        }
+        E::Plus(a) => num_of(&ev(a)?, dv).map(R::N),
+        E::Minus(a) => num_of(&ev(a)?, dv).and_then(|n| Ok(R::N(match n { Num::I(v) => Num::I(v.checked_neg().ok_or(Er::Unknown)?), Num::D(m, s) => Num::D(-m, s), Num::F(f) => Num::F(-f), Num::Db(d) => Num::Db(-d) }))),
+        E::If(c, t, f) => match ev(c).and_then(|r| ebv(&r, dv)) { Ok(true) => ev(t), Ok(false) => ev(f), Err(Er::Unknown) => Err(Er::Unknown),
+            Err(Er::Type) => if dv.if_noebv && ev(c).is_ok() { ev(f) } else { Err(Er::Type) } },
+        E::Coalesce(l) => { for e in l { match ev(e) { Ok(r) => return Ok(r), Err(Er::Unknown) => return Err(Er::Unknown), Err(Er::Type) => {} } } Err(Er::Type) }
+        E::Fn(f, a) => {
+            let r = ev(a)?;
+            let kind = match &r { R::T(T::Iri(_)) => 0, R::T(T::Bn(_)) => 1, R::T(T::Tr(_)) => 3, _ => 2 };
+            match f {
+                F1::Str => match &r { R::T(T::Iri(i)) => Ok(R::T(lit(i, "string"))), R::T(T::Lit(l, _)) | R::T(T::Lang(l, _)) => Ok(R::T(lit(l, "string"))), R::B(b) => Ok(R::T(lit(if *b { "true" } else { "false" }, "string"))),
+                    R::N(n) => Ok(R::StrOfNum(*n)), R::StrOfNum(_) => Ok(r.clone()), _ => Err(Er::Type) },
+                F1::Lang => match &r { R::T(T::Lang(_, t)) => Ok(R::T(lit(t, "string"))), _ if kind == 2 => Ok(R::T(lit("", "string"))), _ => Err(Er::Type) },
+                F1::Datatype => match &r { R::T(T::Lit(_, d)) => Ok(R::T(T::Iri(d.clone()))), R::T(T::Lang(..)) => Ok(R::T(T::Iri(RDF_LANGSTRING.into()))), R::N(n) => Ok(R::T(T::Iri(num_dt(n)))), R::B(_) => Ok(R::T(T::Iri(x("boolean")))), R::StrOfNum(_) => Ok(R::T(T::Iri(x("string")))), _ => Err(Er::Type) },
+                F1::IsIri => Ok(R::B(kind == 0)), F1::IsBlank => Ok(R::B(kind == 1)), F1::IsLiteral => Ok(R::B(kind == 2)),
+                F1::IsNumeric => Ok(R::B(!matches!(r, R::StrOfNum(_)) && matches!(class_of(&r, dv), K::Num(_) | K::HugeNum))),
+            }
+        }
+    }
+}
+/// does the engine's answer (bound term or unbound, FILTER kept or not) agree with the oracle's?
+/// None = the oracle cannot tell
+fn agrees(o: &Res, bound: &Option<T>, kept: bool, dv: &Dv) -> Option<bool> {
+    let num_matches = |n: &Num, t: &T, want_dt: &str| -> bool {
+        let T::Lit(lex, dt) = t else { return false };
+        if dt != want_dt { return false }
+        let strict = Dv::default();
+        let inf_ok = dv.inf_lex && matches!(lex.as_str(), "inf" | "-inf");
+        match n {
+            Num::I(v) => xsd_integer(lex, &strict) == Some(Some(*v)),
+            Num::D(m, s) => { let lenient = Dv { lex: dv.dec_sci, ..strict }; xsd_decimal(lex, &lenient) == Some(Some(Num::D(*m, *s))) }
+            Num::F(f) => (xsd_float_syntax(lex, &strict) || inf_ok) && lex.parse::<f32>().is_ok_and(|g| g.to_bits() == f.to_bits() || (g.is_nan() && f.is_nan())),
+            Num::Db(f) => (xsd_float_syntax(lex, &strict) || inf_ok) && lex.parse::<f64>().is_ok_and(|g| g.to_bits() == f.to_bits() || (g.is_nan() && f.is_nan())),
+        }
+    };
+    let (bind_ok, keep) = match o {
+        Err(Er::Unknown) => return None,
+        Err(Er::Type) => (bound.is_none(), Ok(false)),
+        Ok(r) => (match (r, bound) {
+            (_, None) => false,
+            (R::T(t), Some(b)) => t.same(b),
+            (R::B(v), Some(b)) => *b == lit(if *v { "true" } else { "false" }, "boolean"),
+            (R::N(n), Some(b)) => num_matches(n, b, &num_dt(n)),
+            (R::StrOfNum(n), Some(b)) => num_matches(n, &match b { T::Lit(l, d) if *d == x("string") => T::Lit(l.clone(), num_dt(n)), _ => T::Iri(String::new()) }, &num_dt(n)),
+        }, ebv(r, dv)),
+    };
+    match keep { Err(Er::Unknown) => None, k => Some(bind_ok && kept == (k == Ok(true))) }
+}
+
+// ------------------------------------------------------------------------------------------
+// the engine
+// ------------------------------------------------------------------------------------------
+#[derive(Debug, Clone, PartialEq)]
+enum Obs { Bound(Option<T>), Kept(bool), Err(String), Panic(String), Parse(String) }
+fn run_engine(d: &LightDataset, q: &str) -> Obs {
+    let parsed = match SparqlQuery::<LightDataset>::parse(q) { Ok(p) => p, Err(e) => return Obs::Parse(e.to_string()) };
+    let r = std::panic::catch_unwind(std::panic::AssertUnwindSafe(|| match SparqlWrapper(d).query(&parsed) {
+        Err(e) => Obs::Err(e.to_string()),
+        Ok(SparqlResult::Boolean(b)) => Obs::Kept(b),
+        Ok(SparqlResult::Bindings(b)) => {
+            let rows: Vec<_> = b.into_iter().collect();
+            if rows.len() != 1 { return Obs::Err(format!("{} rows", rows.len())) }
+            match &rows[0] { Ok(r) => Obs::Bound(r[0].as_ref().map(|t| T::from_term(t.borrow_term()))), Err(e) => Obs::Err(format!("row error: {e}")) }
+        }
+        Ok(_) => Obs::Err("unexpected result kind".into()),
+    }));
+    match r { Ok(o) => o, Err(p) => Obs::Panic(p.downcast_ref::<String>().cloned().or(p.downcast_ref::<&str>().map(|s| s.to_string())).unwrap_or_default()) }
+}
+fn dataset_for(pool: &[T], mu: &[Option<usize>; 4]) -> (LightDataset, String) {
+    let mut d = LightDataset::new(); let mut bgp = String::new();
+    for v in 0..3 { if let Some(i) = mu[v] { d.insert(&iri("tag:s"), &iri(&format!("tag:p{}", VARS[v])), &pool[i].to_st(), None::<&ST>).unwrap(); bgp.push_str(&format!("<tag:s> <tag:p{0}> ?{0} . ", VARS[v])); } }
+    (d, bgp)
+}
+fn eval_engine(pool: &[T], mu: &[Option<usize>; 4], text: &str) -> (Obs, Obs, String) {
+    let (d, bgp) = dataset_for(pool, mu);
+    let q1 = format!("SELECT ?r {{ {bgp} BIND({text} AS ?r) }}");
+    let q2 = format!("ASK {{ {bgp} FILTER({text}) }}");
+    (run_engine(&d, &q1), run_engine(&d, &q2), q1)
+}
+
+// ------------------------------------------------------------------------------------------
+// the term pool: (class label, term); the label groups terms for the operator x class streams
+// ------------------------------------------------------------------------------------------
+fn pool() -> Vec<(&'static str, T)> {
+    let mut p: Vec<(&'static str, T)> = vec![];
+    for l in ["0", "1", "2", "-1", "+5", "007", "-0", "3", "10"] { p.push(("int", lit(l, "integer"))) }
+    for l in ["9223372036854775807", "-9223372036854775808", "9223372036854775808", "-9223372036854775809", "4611686018427387904", "3037000500", "-3037000500", "99999999999999999999", "-99999999999999999999", "9223372036854775806"] { p.push(("int-boundary", lit(l, "integer"))) }
+    for l in ["abc", "1_0", "", "1.0", " 1", "1e2", "+-1", "--1", "1_", "_1", "-+1", "++1", "+", "-", "1__0", "-1_0", "99999999999999999999_9"] { p.push(("int-ill", lit(l, "integer"))) }
+    for (l, d) in [("1", "byte"), ("127", "byte"), ("-128", "byte"), ("255", "unsignedByte"), ("+5", "unsignedInt"), ("-5", "negativeInteger"), ("0", "nonPositiveInteger"), ("18446744073709551615", "unsignedLong"), ("9223372036854775807", "long"), ("1", "positiveInteger"), ("0", "nonNegativeInteger"), ("-0", "nonNegativeInteger"), ("32767", "short"), ("2147483647", "int")] { p.push(("int-derived", lit(l, d))) }
+    for (l, d) in [("128", "byte"), ("-129", "byte"), ("-1", "nonNegativeInteger"), ("0", "positiveInteger"), ("1", "negativeInteger"), ("256", "unsignedByte"), ("18446744073709551616", "unsignedLong"), ("abc", "long"), ("1_0", "int"), ("1_0", "nonNegativeInteger"), ("-1", "unsignedInt"), ("1.0", "short")] { p.push(("int-derived-ill", lit(l, d))) }
+    for l in ["-0", "-00"] { p.push(("unsigned-minus-zero", lit(l, "unsignedByte"))) }
+    for l in ["0.0", "1.5", "-1.5", "2.0", "0.1", "1.10", ".5", "5.", "+5.0", "0.0000001", "-0.00000012", "0.000001", "123456789012345678901234567890.5", "3.0", "0.25"] { p.push(("decimal", lit(l, "decimal"))) }
+    for l in ["1e3", "1_0.5", ".", "abc", "", "1.2.3", "1E-2", "+", "1.5e0", ".-5", ".+5", "1.-5", "-.", "1__0", "5._"] { p.push(("decimal-ill", lit(l, "decimal"))) }
+    for l in ["0", "-0.0", "1", "1.5", "0.1", "3.4e38", "1e-45", "16777217", "2", "-2.5", "1e10"] { p.push(("float", lit(l, "float"))) }
+    for l in ["NaN", "INF", "-INF", "+INF"] { p.push(("float-special", lit(l, "float"))) }
+    for l in ["inf", "nan", "infinity", "-Infinity", "1e", "abc", "", "0x1", "+nan"] { p.push(("float-ill", lit(l, "float"))) }
+    for l in ["0e0", "-0e0", "1e0", "1.5", "2.5e0", "0.1", "1e308", "5e-324", "9007199254740993", "1E2", "-3e0", "1.7976931348623157e308", "1e23", ".5e1", "2e0"] { p.push(("double", lit(l, "double"))) }
+    for l in ["NaN", "INF", "-INF", "+INF"] { p.push(("double-special", lit(l, "double"))) }
+    for l in ["inf", "-nan", "Infinity", "e5", "1e400x", "NAN", "-inf", "", "1e5.5", "1_0e0", ".e1", "+.e1", "1e+", "--1e0"] { p.push(("double-ill", lit(l, "double"))) }
+    for l in ["", "a", "b", "abc", "B", "\u{e9}", "1", "true"] { p.push(("string", lit(l, "string"))) }
+    for (l, t) in [("a", "en"), ("a", "EN"), ("a", "fr"), ("b", "en"), ("", "en"), ("a", "en-US"), ("b", "FR")] { p.push(("lang", T::Lang(l.into(), t.into()))) }
+    for l in ["true", "false", "1", "0"] { p.push(("boolean", lit(l, "boolean"))) }
+    for l in ["TRUE", "foo", "bar", ""] { p.push(("boolean-ill", lit(l, "boolean"))) }
+    for l in ["2020-01-01T00:00:00Z", "2020-01-01T00:00:00", "2020-01-01T01:00:00+01:00", "2020-01-01T12:00:00-05:00", "2020-01-02T00:00:00", "2019-12-31T24:00:00", "2020-01-01T00:00:00.5Z", "2020-01-01T15:00:00", "-0044-03-15T12:00:00Z", "2020-02-29T23:59:59.999+14:00"] { p.push(("dateTime", lit(l, "dateTime"))) }
+    for l in ["foo", "bar", "2020-02-30T00:00:00", "2020-01-01", "2020-01-01T25:00:00Z", "20-01-01T00:00:00"] { p.push(("dateTime-ill", lit(l, "dateTime"))) }
+    for (l, d) in [("1", "http://x/dt"), ("2", "http://x/dt"), ("2020-01-01", "http://www.w3.org/2001/XMLSchema#date"), ("1", "http://www.w3.org/2001/XMLSchema#Integer")] { p.push(("other-literal", T::Lit(l.into(), d.into()))) }
+    for i in ["http://x/a", "http://x/b", "tag:x"] { p.push(("iri", T::Iri(i.into()))) }
+    for b in ["b1", "b2"] { p.push(("bnode", T::Bn(b.into()))) }
+    p.push(("triple", T::Tr(Box::new([T::Iri("http://x/a".into()), T::Iri("http://x/p".into()), lit("1", "integer")]))));
+    p.push(("triple", T::Tr(Box::new([T::Bn("b1".into()), T::Iri("http://x/p".into()), T::Lang("a".into(), "en".into())]))));
+    p
+}
+/// inline constants must be writable in a query and survive spargebra unchanged (it lower-cases language tags)
+fn inlinable(t: &T) -> bool { match t { T::Iri(_) | T::Lit(..) => true, T::Lang(_, tag) => *tag == tag.to_ascii_lowercase(), _ => false } }
+
+struct Gen<'a> { r: Rng, pool: &'a [(&'static str, T)], classes: &'a [(&'static str, Vec<usize>)] }
+impl<'a> Gen<'a> {
+    fn of_class(&mut self, c: &str) -> usize { let v = &self.classes.iter().find(|(n, _)| *n == c).unwrap().1; *self.r.pick(v) }
+    fn any_term(&mut self) -> usize { let c = self.r.below(self.classes.len()); *self.r.pick(&self.classes[c].1) }
+    /// a leaf standing for pool term i: bind it to a variable, or write it inline
+    fn leaf_for(&mut self, i: usize, mu: &mut [Option<usize>; 4]) -> E {
+        if inlinable(&self.pool[i].1) && self.r.chance(1, 3) { return E::Const(i) }
+        for v in 0..3 { if mu[v] == Some(i) { return E::Var(v) } }
+        for v in 0..3 { if mu[v].is_none() { mu[v] = Some(i); return E::Var(v) } }
+        if inlinable(&self.pool[i].1) { E::Const(i) } else { E::Var(self.r.below(3)) }
+    }
+    fn leaf(&mut self, mu: &mut [Option<usize>; 4]) -> E {
+        match self.r.below(20) { 0 => E::Var(3), 1 => E::Bound(self.r.below(4)), 2..=5 if mu.iter().any(|m| m.is_some()) => { let vs: Vec<usize> = (0..3).filter(|v| mu[*v].is_some()).collect(); E::Var(*self.r.pick(&vs)) } _ => { let i = self.any_term(); self.leaf_for(i, mu) } }
+    }
+    fn tree(&mut self, depth: usize, mu: &mut [Option<usize>; 4]) -> E {
+        if depth == 0 || self.r.chance(1, 6) { return self.leaf(mu) }
+        let d = depth - 1;
+        match self.r.below(30) {
+            0..=11 => { let o = *self.r.pick(&[B2::Or, B2::And, B2::Eq, B2::Eq, B2::SameTerm, B2::Gt, B2::Ge, B2::Lt, B2::Le, B2::Add, B2::Sub, B2::Mul, B2::Div]); bin(o, self.tree(d, mu), self.tree(d, mu)) }
+            12..=14 => E::Not(bx(self.tree(d, mu))),
+            15..=16 => { let n = self.r.below(4); E::In(bx(self.tree(d, mu)), (0..n).map(|_| self.tree(d.min(1), mu)).collect()) }
+            17 => E::Plus(bx(self.tree(d, mu))), 18..=19 => E::Minus(bx(self.tree(d, mu))),
+            20..=22 => E::If(bx(self.tree(d, mu)), bx(self.tree(d, mu)), bx(self.tree(d, mu))),
+            23..=24 => { let n = self.r.below(4); E::Coalesce((0..n).map(|_| self.tree(d, mu)).collect()) }
+            _ => { let f = *self.r.pick(&[F1::Str, F1::Lang, F1::Datatype, F1::IsIri, F1::IsBlank, F1::IsLiteral, F1::IsNumeric]); E::Fn(f, bx(self.tree(d, mu))) }
+        }
+    }
+}
+const BINOPS: [B2; 12] = [B2::Eq, B2::SameTerm, B2::Lt, B2::Le, B2::Gt, B2::Ge, B2::Add, B2::Sub, B2::Mul, B2::Div, B2::Or, B2::And];
+
+fn main() {
+    let a = parse_args();
+    let pool_l = pool();
+    let pool_t: Vec<T> = pool_l.iter().map(|p| p.1.clone()).collect();
+    let mut classes: Vec<(&'static str, Vec<usize>)> = vec![];
+    for (i, (c, _)) in pool_l.iter().enumerate() { match classes.iter_mut().find(|(n, _)| n == c) { Some(e) => e.1.push(i), None => classes.push((c, vec![i])) } }
+    let idx_of = |t: &T| pool_t.iter().position(|u| u == t).unwrap();
+    let no_mu: [Option<usize>; 4] = [None; 4];
+    if a.rest.iter().any(|s| s == "--probe") {
+        use std::io::BufRead;
+        for l in std::io::stdin().lock().lines() {
+            let l = l.unwrap(); if l.trim().is_empty() { continue }
+            let q = format!("PREFIX xsd: <http://www.w3.org/2001/XMLSchema#> SELECT ?r {{ BIND(({l}) AS ?r) }}");
+            println!("{l}  ==>  {}", match run_engine(&LightDataset::new(), &q) { Obs::Bound(Some(t)) => t.show(), Obs::Bound(None) => "UNBOUND".into(), o => format!("{o:?}") });
+        }
+        return;
+    }
+
+    // --- which repairs does the engine under test contain?  (the model is run with the same switches)
+    let probe = |text: &str| eval_engine(&pool_t, &no_mu, text).0;
+    let xs = |l: &str, d: &str| lit(l, d).sparql();
+    let bool_t = |b: bool| Obs::Bound(Some(lit(if b { "true" } else { "false" }, "boolean")));
+    let cfg = [
+        probe("IF(<tag:x>, 1, 2)") == Obs::Bound(None),
+        probe(&format!("({} = {})", xs("foo", "boolean"), xs("bar", "boolean"))) == Obs::Bound(None),
+        probe(&format!("(!({}))", xs("NaN", "float"))) == bool_t(true),
+        probe(&format!("(!({}))", xs("abc", "integer"))) == bool_t(true),
+        probe(&format!("({} < 1)", xs("NaN", "double"))) == bool_t(false),
+        probe(&format!("({} + 0)", xs("1_0", "integer"))) == Obs::Bound(None) && probe(&format!("({} + 0)", xs(".-5", "decimal"))) == Obs::Bound(None) && probe(&format!("({} + 0)", xs("inf", "double"))) == Obs::Bound(None),
+        probe("(0.0000001 * 1.0)") == Obs::Bound(Some(lit("0.0000001", "decimal"))),
+        probe(&format!("({} + 0)", xs("-0", "unsignedByte"))) == Obs::Bound(Some(lit("0", "integer"))),
+    ];
+    let dt_panics = matches!(probe(&format!("({} = 1)", xs("99999999999-01-01T00:00:00", "dateTime"))), Obs::Panic(_));
+    let mut header = String::from("From Sophia.C13 Require Import ExprConcrete.\n");
+    header.push_str(&format!("Definition the_cfg : cfg := mkCfg {}.\n", cfg.iter().map(|b| coq_bool(*b)).collect::<Vec<_>>().join(" ")));
+    for (i, t) in pool_t.iter().enumerate() { header.push_str(&format!("Definition t{i} : term := {}.\n", t.coq())); }
+    header.push_str("Definition ck := expr_ok XC the_cfg.\n");
+
+    let mut sum = Summary::default();
+    sum.rule = "case = (expression tree of depth <= 4 over a pool of ~190 terms covering every value class, well- and ill-formed; <= 3 variables bound through a BGP, one unbound, inline constants); streams: random trees / every binary operator x every pair of value classes / unary operators, functions and boolean contexts x every class / near-boundary integer arithmetic / the known deviations; non-trivial = the expression has an operator (not a bare leaf); distinct = distinct (expression text, solution)".into();
+    sum.extra.push(("engine_repairs".into(), format!("{{\"C13e-1\": {}, \"C13e-2\": {}, \"C13e-3\": {}, \"C13e-4\": {}, \"C13e-5\": {}, \"C13e-6\": {}, \"C13e-7\": {}, \"C13e-8\": {}, \"C13e-9\": {}}}", cfg[0], cfg[1], cfg[2], cfg[3], cfg[4], cfg[5], cfg[6], !dt_panics, cfg[7])));
+    if dt_panics {
+        sum.oracle_failures.push(("probe".into(), format!("PANIC-DATETIME-YEAR: the query  SELECT ?r {{ BIND(({} = 1) AS ?r) }}  panics (XsdDateTime::new unwraps the i32 parse of a year that the regex does not bound); expected: the literal is ill-formed, '=' raises a type error, ?r unbound", xs("99999999999-01-01T00:00:00", "dateTime"))));
+    }
+
+    let nc = classes.len();
+    let base = Rng::new(a.seed);
+    let mut cases = vec![]; let mut seen = HashSet::new();
+    let range: Vec<usize> = match a.only { Some(i) => vec![i], None => (0..a.n).collect() };
+    let mut explained: BTreeMap<String, u64> = BTreeMap::new();
+    for idx in range {
+        let mut g = Gen { r: base.fork(idx as u64), pool: &pool_l, classes: &classes };
+        let mut mu: [Option<usize>; 4] = [None; 4];
+        let k = idx / 5;
+        let (stream, e) = match idx % 5 {
+            0 | 1 => { let d = g.r.range(1, 4); ("random", g.tree(d, &mut mu)) }
+            2 => { // every binary operator x every ordered pair of classes
+                let op = BINOPS[k % 12]; let pair = (k / 12) % (nc * nc);
+                let (c1, c2) = (classes[pair / nc].0, classes[pair % nc].0);
+                let (i, j) = (g.of_class(c1), g.of_class(c2));
+                let (x, y) = (g.leaf_for(i, &mut mu), g.leaf_for(j, &mut mu));
+                ("binop-x-classes", bin(op, x, y))
+            }
+            3 => { // unary contexts x every class
+                let ctx = k % 14; let c = classes[(k / 14) % nc].0; let i = g.of_class(c); let x = g.leaf_for(i, &mut mu);
+                let one = E::Const(idx_of(&lit("1", "integer"))); let two = E::Const(idx_of(&lit("2", "integer")));
+                ("context-x-class", match ctx {
+                    0 => x, 1 => E::Not(bx(x)), 2 => E::Plus(bx(x)), 3 => E::Minus(bx(x)), 4 => E::If(bx(x), bx(one), bx(two)),
+                    5 => bin(B2::Or, x, E::Const(idx_of(&lit("false", "boolean")))), 6 => bin(B2::And, x, E::Const(idx_of(&lit("true", "boolean")))),
+                    7 => E::Fn(F1::Str, bx(x)), 8 => E::Fn(F1::Lang, bx(x)), 9 => E::Fn(F1::Datatype, bx(x)), 10 => E::Fn(F1::IsNumeric, bx(x)),
+                    11 => E::Fn(*g.r.pick(&[F1::IsIri, F1::IsBlank, F1::IsLiteral]), bx(x)), 12 => E::Coalesce(vec![x, one]), _ => E::Not(bx(E::Not(bx(x)))),
+                })
+            }
+            _ => if k % 2 == 0 { // near-boundary integer arithmetic and promotions
+                let cs = ["int-boundary", "int-boundary", "int", "int-derived", "decimal", "float", "double"];
+                let (ci, cj) = (cs[g.r.below(4)], cs[g.r.below(7)]); let (i, j) = (g.of_class(ci), g.of_class(cj));
+                let (x, y) = (g.leaf_for(i, &mut mu), g.leaf_for(j, &mut mu));
+                let op = *g.r.pick(&[B2::Add, B2::Sub, B2::Mul, B2::Div, B2::Eq, B2::Lt]);
+                let e = bin(op, if g.r.chance(1, 3) { E::Minus(bx(x)) } else { x }, y);
+                ("int-boundary", if g.r.chance(1, 3) { let z = g.of_class("int-boundary"); let z = g.leaf_for(z, &mut mu); bin(*g.r.pick(&[B2::Add, B2::Sub, B2::Mul]), e, z) } else { e })
+            } else { // the candidate deviations, with varying operands
+                let t = |g: &mut Gen, c: &str, mu: &mut [Option<usize>; 4]| { let i = g.of_class(c); g.leaf_for(i, mu) };
+                let one = E::Const(idx_of(&lit("1", "integer"))); let zero = E::Const(idx_of(&lit("0", "integer")));
+                let err = bin(B2::Div, one.clone(), zero.clone());
+                ("deviations", match (k / 2) % 12 {
+                    0 => { let c = *g.r.pick(&["iri", "bnode", "dateTime", "other-literal", "int-ill", "triple"]); E::If(bx(t(&mut g, c, &mut mu)), bx(one), bx(zero)) }
+                    1 => { let x = t(&mut g, "int", &mut mu); let mut l = vec![err.clone(), x.clone()]; if g.r.chance(1, 2) { l.reverse() } if g.r.chance(1, 2) { l.insert(0, t(&mut g, "int", &mut mu)) } let e = E::In(bx(x), l); if g.r.chance(1, 2) { E::Not(bx(e)) } else { e } }
+                    2 => { let c = *g.r.pick(&["boolean-ill", "dateTime-ill"]); let o = *g.r.pick(&[c, c, "boolean", "dateTime"]); let e = bin(B2::Eq, t(&mut g, c, &mut mu), t(&mut g, o, &mut mu)); if g.r.chance(1, 2) { E::Not(bx(e)) } else { e } }
+                    3 => { let x = t(&mut g, "float-special", &mut mu); match g.r.below(3) { 0 => E::Not(bx(x)), 1 => E::If(bx(x), bx(one), bx(zero)), _ => bin(B2::Or, x, zero) } }
+                    4 => { let c = *g.r.pick(&["int-ill", "decimal-ill", "float-ill", "double-ill", "int-derived-ill"]); let x = t(&mut g, c, &mut mu); match g.r.below(3) { 0 => E::Not(bx(x)), 1 => bin(B2::Or, x, one), _ => bin(B2::And, x, one) } }
+                    5 => { let c = *g.r.pick(&["float-special", "double-special"]); let o = *g.r.pick(&["int", "decimal", "float", "double", "double-special"]); let op = *g.r.pick(&[B2::Lt, B2::Le, B2::Gt, B2::Ge]); let (x, y) = (t(&mut g, c, &mut mu), t(&mut g, o, &mut mu)); let e = if g.r.chance(1, 2) { bin(op, x, y) } else { bin(op, y, x) }; if g.r.chance(1, 2) { E::Not(bx(e)) } else { e } }
+                    6 => { let c = *g.r.pick(&["int-ill", "decimal-ill", "float-ill", "double-ill", "int-derived-ill"]); let x = t(&mut g, c, &mut mu); match g.r.below(4) { 0 => bin(B2::Add, x, zero), 1 => E::Fn(F1::IsNumeric, bx(x)), 2 => bin(B2::Eq, x, one), _ => E::Plus(bx(x)) } }
+                    7 => { let x = t(&mut g, "decimal", &mut mu); let y = t(&mut g, "decimal", &mut mu); bin(*g.r.pick(&[B2::Mul, B2::Mul, B2::Div, B2::Sub]), x, y) }
+                    8 => { let c = *g.r.pick(&["float", "double", "float-special", "double-special", "int"]); let x = t(&mut g, c, &mut mu); let y = t(&mut g, "double", &mut mu); bin(*g.r.pick(&[B2::Div, B2::Mul]), x, bin(B2::Sub, y.clone(), y)) }
+                    9 => { let x = t(&mut g, "unsigned-minus-zero", &mut mu); match g.r.below(3) { 0 => bin(B2::Add, x, one), 1 => E::Fn(F1::IsNumeric, bx(x)), _ => E::Not(bx(x)) } }
+                    10 => { let (x, y) = (t(&mut g, "lang", &mut mu), t(&mut g, "lang", &mut mu)); bin(*g.r.pick(&[B2::Eq, B2::Lt, B2::Le, B2::Gt, B2::Ge, B2::SameTerm]), x, y) }
+                    _ => { let c = *g.r.pick(&["other-literal", "int-ill", "boolean-ill", "dateTime-ill"]); let x = t(&mut g, c, &mut mu); bin(*g.r.pick(&[B2::Le, B2::Ge, B2::Lt, B2::Eq]), x.clone(), x) }
+                })
+            },
+        };
+        let mut pr = g.r.fork(77);
+        let text = e.sparql(&pool_t, &mut pr);
+        let (o1, o2, q1) = eval_engine(&pool_t, &mu, &text);
+        let mu_show: Vec<String> = (0..3).filter_map(|v| mu[v].map(|i| format!("?{}={}", VARS[v], pool_t[i].show()))).collect();
+        let descr = format!("{} with {{{}}}", text.replace(XSD, "xsd:"), mu_show.join(", "));
+        sum.evaluations += 1;
+        sum.bump(&format!("stream:{stream}"));
+        let (bound, kept) = match (&o1, &o2) {
+            (Obs::Bound(b), Obs::Kept(k)) => (b.clone(), *k),
+            _ => {
+                let cls = if matches!(o1, Obs::Panic(_)) || matches!(o2, Obs::Panic(_)) { "PANIC" } else if matches!(o1, Obs::Parse(_)) { "HARNESS-PARSE" } else { "ENGINE-ERROR" };
+                sum.oracle_failures.push((idx.to_string(), format!("{cls}: {descr}: BIND query gave {o1:?}, FILTER query gave {o2:?}")));
+                sum.bump("result:no-answer");
+                if a.only.is_some() { println!("CASE {idx} [{stream}]: {q1}\n  => {o1:?} / {o2:?}"); }
+                continue;
+            }
+        };
+        // oracle
+        let spec = eval(&e, &pool_t, &mu, &Dv::default());
+        let verdict = agrees(&spec, &bound, kept, &Dv::default());
+        let show_b = |b: &Option<T>| b.as_ref().map(|t| t.show()).unwrap_or("unbound".into());
+        match verdict {
+            None => sum.bump("oracle:cannot-tell"),
+            Some(true) => sum.bump("oracle:agrees"),
+            Some(false) => {
+                // which known deviations explain the answer?  smallest set first
+                let mut masks: Vec<u32> = (1..1024).collect(); masks.sort_by_key(|m| m.count_ones());
+                let cls = masks.iter().find(|m| { let dv = dv_of(**m); agrees(&eval(&e, &pool_t, &mu, &dv), &bound, kept, &dv) == Some(true) })
+                    .map(|m| (0..10).filter(|i| m & (1 << i) != 0).map(|i| DV_NAMES[i]).collect::<Vec<_>>().join("+")).unwrap_or("UNEXPLAINED".into());
+                *explained.entry(cls.clone()).or_default() += 1;
+                sum.bump(&format!("oracle:differs:{cls}"));
+                let want = match &spec { Err(_) => "an error (unbound, solution dropped)".to_string(), Ok(R::T(t)) => t.show(), Ok(R::B(b)) => format!("{b}"), Ok(R::N(n)) => format!("{n:?} as a valid {}", num_dt(n).replace(XSD, "xsd:")), Ok(R::StrOfNum(n)) => format!("a lexical form of {n:?}") };
+                sum.oracle_failures.push((idx.to_string(), format!("{cls}: {descr}: the engine binds {} and FILTER {} the solution; SPARQL 1.1 section 17 gives {want}", show_b(&bound), if kept { "keeps" } else { "drops" })));
+            }
+        }
+        sum.bump(if bound.is_some() { "result:bound" } else { "result:error" });
+        if kept { sum.bump("filter:kept") }
+        if a.only.is_some() { println!("CASE {idx} [{stream}]: {q1}\n  engine: ?r = {}, FILTER keeps = {kept}\n  oracle: {spec:?} => {verdict:?}\n  coq: ck {} ...", show_b(&bound), e.coq()); }
+        if seen.insert(descr.clone()) && e.size() > 1 { sum.distinct_nontrivial += 1; }
+        if sum.samples.len() < 6 && e.size() > 3 && idx % 7 == 0 { sum.samples.push(format!("case {idx} [{stream}]: {descr} => ?r = {}, kept = {kept}", show_b(&bound))); }
+        let c_mu = coq_list((0..3).filter_map(|v| mu[v].map(|i| format!("({}, t{i})", coq_str(VARS[v])))));
+        cases.push((idx, format!("ck {} {} {} {}", e.coq(), c_mu, coq_opt(bound.as_ref().map(|t| t.coq())), coq_bool(kept))));
+    }
+    if a.only.is_none() {
+        sum.shards = write_shards(&a.out, &header, &cases, a.shards);
+        sum.extra.push(("coq_cases".into(), cases.len().to_string()));
+        sum.extra.push(("failure_classes".into(), format!("{{{}}}", explained.iter().map(|(k, v)| format!("{}: {v}", json_str(k))).collect::<Vec<_>>().join(", "))));
+        std::fs::write(format!("{}/summary.json", a.out), sum.to_json()).unwrap();
+    }
+    println!("c13e: {} cases, {} distinct non-trivial, {} oracle failures {:?}; engine repairs {:?}, dateTime year panic: {dt_panics}", sum.evaluations, sum.distinct_nontrivial, sum.oracle_failures.len(), explained, cfg);
 }
